@@ -311,6 +311,17 @@ def exec_for(eng, node, st, k, ctx):
             if it.s[1] == ("unk",):
                 # empty literal list
                 count = z3.IntVal(0)
+        elif it.s == STR:
+            # iteration over a (symbolic) string: one character at a time
+            count = z3.simplify(z3.Length(it.t))
+            from .specs import UFUNCS, ufunc as _uf
+            if "char_at" not in UFUNCS:
+                _uf("char_at", [STR, INT], STR)
+
+            def elem(s, i):
+                c = z3.SubString(it.t, i, 1)
+                s.assume(c == UFUNCS["char_at"][2](it.t, i))       # the i-th character, also available to contracts as char_at(text, i)
+                return V(STR, c)
         elif it.s == PY and isinstance(it.t, (tuple, list, str)):
             count = z3.IntVal(len(it.t))
             elem = lambda s, i: py(it.t[z3.simplify(i).as_long()])
